@@ -1469,3 +1469,175 @@ def C04(tier, seed):
                   '(sequence number, kind, root), otherwise deadlock is reported', 'shim/tbb scheduler shim in its default schedule'],
     }
     return finish(prop, tier, seed, 'model_checking', agg, out, bounds, ASSUME_A, t0, nvalid)
+
+
+# ----------------------------------------------------------------------------- C07 (sanitized explorations + CBMC memory-safety of the engine-B units)
+def C07(tier, seed):
+    import engb
+    import concurrent.futures
+    prop = 'C07'
+    t0 = time.time()
+    specs = [('harness/h_exact.cpp', 'symx_asan'), ('harness/h_approx.cpp', 'symx_asan'), ('harness/h_sptree.cpp', 'symx_asan'),
+             ('harness/h_coll.cpp', 'symx_asan'), ('harness/h_gf2.cpp', 'symx_asan'), ('harness/h_tbb.cpp', 'symx_asan'),
+             ('harness/h_valid.cpp', 'symx_asan'), ('harness/h_topo.cpp', 'symx_asan'),
+             ('replay/r_mcb.cpp', 'real_asan'), ('replay/r_misc.cpp', 'real_asan'), ('replay/r_gf2.cpp', 'real_asan')]
+    bins = build_many(specs)
+    hx, ha, hs, hc, hg, ht, hv, hto, ra_mcb, ra_misc, ra_gf2 = bins
+    q = tier == 'quick'
+    g4 = [(n, g) for n, g in small_graphs(3) + [(4, g) for g in all_labelled_graphs(4)]]
+    lim = 4 if q else 5
+    runs = []
+    ex_cases = []
+    for algo in ('signed', 'fvs', 'iso'):
+        for n, g in g4:
+            if len(g) <= (lim - (1 if algo == 'iso' and not q else 0)):
+                ex_cases.append('algo=%s n=%d edges=%s sym=all' % (algo, n, edges_str(g)))
+        ex_cases += slice_cases(algo, 'K33', 2, seed) + slice_cases(algo, 'K5', 2, seed) + slice_cases(algo, 'grid3x3', 2, seed)
+        ex_cases.append('algo=%s n=4 edges=0-1,0-2,0-3,1-2,1-3,2-3 sym=0,2,5' % algo)
+    runs.append(('exact', hx, ex_cases))
+    ap_cases = []
+    for algo in ('approx_signed', 'approx_fvs', 'approx_iso'):
+        for k in (0, 1, 2, 3):
+            for n, g in g4:
+                if len(g) <= lim and (k > 0 or len(g) in (0, 3, 5)):
+                    ap_cases.append('algo=%s k=%d n=%d edges=%s sym=all' % (algo, k, n, edges_str(g)))
+            if k:
+                ap_cases += slice_cases(algo, 'C5', 5 if not q else 3, seed, extra=' k=%d' % k) + slice_cases(algo, 'petersen', 2, seed, extra=' k=%d' % k)
+    for k in (1, 2):
+        for n, g in g4:
+            if len(g) <= lim:
+                ap_cases.append('algo=spanner k=%d n=%d edges=%s sym=all' % (k, n, edges_str(g)))
+    runs.append(('approx', ha, ap_cases))
+    runs.append(('sptree', hs, ['n=%d edges=%s sym=all' % (n, edges_str(g)) for n, g in g4 if len(g) <= lim] +
+                 ['n=9 edges=%s sym=none' % edges_str(norm_edges(family('grid3x3')[1])), 'n=6 edges=%s sym=0,4' % edges_str(norm_edges(family('K33')[1]))]))
+    runs.append(('coll', hc, ['n=%d edges=%s sym=all' % (n, edges_str(g)) for n, g in g4 if len(g) <= lim - 1] +
+                 ['n=6 edges=%s sym=0,4' % edges_str(norm_edges(family('K33')[1]))]))
+    runs.append(('gf2', hg, ['L=2 steps=1 R=2', 'L=2 steps=1 R=2 op=13', 'L=1 steps=2 R=2'] + ([] if q else ['L=3 steps=1 R=2 op=4', 'L=3 steps=1 R=2 op=13'])))
+    runs.append(('tbb', ht, [c for c in tbb_cases('quick', seed) if 'sym=all' in c and 'n=4' in c][:(24 if q else 60)]))
+    runs.append(('valid', hv, ['n=2 maxmult=2', 'n=3 maxmult=1'] + ([] if q else ['n=3 maxmult=2'])))
+    runs.append(('topo', hto, ['what=fvs n=4 orders=3', 'what=findex n=4 orders=3', 'what=fvs n=5 orders=1', 'what=findex n=5 orders=1', 'what=findex n=0', 'what=fvs n=0']))
+    agg = Agg(['C07:'])
+    out = Outcome(prop)
+    env = {'SYMX_LSAN': '1', 'ASAN_OPTIONS': 'detect_leaks=1:leak_check_at_exit=0:abort_on_error=1:handle_abort=0:detect_stack_use_after_return=0'}
+    crash_src = []
+    budget = 1200 if q else 3300
+
+    def one(name, h, cases):
+        return name, run_harness(h, cases, '%s-%s-%s' % (prop, tier, name), budget, jobs=6, env=env)
+    # engine-B units: CBMC bounds/pointer/overflow/shift checks for all inputs within their bounds
+    cb = {}
+
+    def cbmc_units():
+        gen = engb.lower_unit('ir2c/wrap/w_c18.cpp', ['w_ext_gcd', 'w_is_prime'], 'u_c18')
+        files = [gen, os.path.join(VERIF, 'ir2c/models/common.c'), os.path.join(VERIF, 'ir2c/harness/h_c18.c')]
+        d = engb.diff_build(gen, 'ir2c/wrap/w_c18.cpp', 'ir2c/harness/d_c18.cpp', ['ir2c/models/common.c'], 'u_c18')
+        r = subprocess.run([d, str(seed)], stdout=subprocess.PIPE, stderr=subprocess.PIPE, text=True)
+        cb['diff'] = json.loads(r.stdout.strip().splitlines()[-1]) if r.stdout.strip() else {'mismatches': -1}
+        bound = 64 if q else 128
+        cb['w'] = engb.cbmc(files, 'harness_gcd', 8, defines=['BOUND=8', 'WITNESS'], timeout=300, trace=False)
+        cb['gcd'] = engb.cbmc(files, 'harness_gcd', 11 if q else 13, defines=['BOUND=%d' % bound], timeout=budget, trace=False)
+        cb['prime'] = engb.cbmc(files, 'harness_prime', bound + 2, defines=['BOUND=%d' % bound], timeout=budget, trace=False)
+        gen20 = engb.lower_unit('ir2c/wrap/w_c20.cpp', ['w_set_concurrency'], 'u_c20')
+        f20 = [gen20, os.path.join(VERIF, 'ir2c/models/common.c'), os.path.join(VERIF, 'ir2c/models/tbb_gc.c'), os.path.join(VERIF, 'ir2c/harness/h_c20.c')]
+        cb['c20'] = engb.cbmc(f20, 'harness', 5, defines=['CALLS=3'], timeout=600, trace=False)
+    with concurrent.futures.ThreadPoolExecutor(max_workers=4) as ex:
+        fcb = ex.submit(cbmc_units)
+        futs = [ex.submit(one, *r) for r in runs]
+        for f in futs:
+            name, (s, log) = f.result()
+            agg.add_summary(s)
+            before = len(agg.crashes)
+            agg.add_log(log)
+            crash_src += [name] * (len(agg.crashes) - before)
+            for rec, obl in agg.violated:
+                rec.setdefault('_src', name)
+        fcb.result()
+    if agg.leaves == 0:
+        out.fault = 'sanitized harnesses explored nothing'
+    if cb['w']['verdict'] != 'failed':
+        out.fault = 'witness twin of the fp<int> CBMC harness was not violated'
+    if cb['diff'].get('mismatches', 1) != 0:
+        out.fault = 'generated C of the fp<int> unit disagrees with the real functions: %s' % cb['diff']
+    # replay sanitizer reports on the real (non-symbolic) ASan builds
+    if not out.fault:
+        items = [(rec, {'name': 'C07:sanitizer-abort(signal %s)' % rec.get('signal')}, src) for rec, src in zip(agg.crashes, crash_src)][:20]
+        items += [(rec, obl, rec.get('_src', '')) for rec, obl in agg.violated[:20]]
+        for idx, (rec, obl, src) in enumerate(items):
+            line, rbin = None, None
+            try:
+                if src in ('exact', 'approx', 'tbb') and rec.get('algo') and rec.get('algo') != 'spanner':
+                    weights, _ = instance_weights(rec, obl.get('model') or rec['model'])
+                    line, rbin = replay_line(rec, weights, 'double'), ra_mcb
+                elif src in ('sptree', 'coll'):
+                    weights, _ = instance_weights(rec, obl.get('model') or rec['model'])
+                    line, rbin = 'what=%s n=%s edges=%s weights=%s' % (src, rec['n'], rec['edges'], ','.join(map(str, weights))), ra_misc
+                elif src == 'gf2':
+                    crumb = rec.get('crumb', '')
+                    script = rec.get('script') or crumb.split(' ## ')[0]
+                    mdl = rec.get('model', {})
+                    if ' ## ' in crumb:
+                        try:
+                            mdl = json.loads(crumb.split(' ## ')[-1])
+                        except Exception:
+                            pass
+                    line, rbin = _gf2_concretise(script, mdl), ra_gf2
+                elif src == 'topo':
+                    mdl = rec.get('model', {})
+                    es = [k[2:].replace('_', '-') for k, v in mdl.items() if k.startswith('e_') and v == 'true']
+                    c = parse_case(rec['case'])
+                    line, rbin = 'what=%s n=%s edges=%s' % (c['what'], c['n'], ','.join(es) if es else '-'), ra_misc
+            except Exception as ex:
+                out.fault = 'cannot concretise sanitizer report from %s: %s' % (src, ex)
+                break
+            if line is None:
+                out.fault = 'sanitizer report in harness %s cannot be replayed on a real build: %s' % (src, json.dumps(rec)[:300])
+                break
+            r = subprocess.run([rbin], input=line + '\n', stdout=subprocess.PIPE, stderr=subprocess.PIPE, text=True, timeout=120,
+                               env=dict(os.environ, ASAN_OPTIONS='detect_leaks=1:abort_on_error=0', UBSAN_OPTIONS='halt_on_error=1:print_stacktrace=1'))
+            reproduced = r.returncode != 0 or 'ERROR: AddressSanitizer' in r.stderr or 'runtime error' in r.stderr or 'LeakSanitizer' in r.stderr
+            if not reproduced:
+                out.fault = 'sanitizer report from harness %s did not reproduce on the real sanitized build: %s' % (src, line)
+                break
+            rp = os.path.join(cex_dir(), 'C07-replay-%d.json' % idx)
+            json.dump({'property': prop, 'replayer': os.path.basename(rbin) + ' (ASan+UBSan+LSan build of the real code)', 'line': line, 'harness': src,
+                       'report': (r.stderr or '')[:1500], 'obligation': obl['name']}, open(rp, 'w'), indent=1)
+            key = '%s/%s' % (src, rec.get('algo') or rec.get('history') or rec.get('case', ''))
+            kf = finding_matches(prop, key)
+            if kf:
+                out.n_known += 1
+                out.known_lines.append('KNOWN-FINDING: property=C07 %s' % kf['text'])
+            else:
+                out.n_confirmed += 1
+                out.violation_lines.append('VIOLATION property=C07 replay=%s' % rp)
+        for nm in ('gcd', 'prime', 'c20'):
+            if not out.fault and cb[nm]['verdict'] == 'failed':
+                safety = [p for p in cb[nm]['failed'] if not p[0].startswith('harness')]
+                if safety:
+                    rp = os.path.join(cex_dir(), 'C07-cbmc-%s.json' % nm)
+                    json.dump({'property': prop, 'cbmc': cb[nm]}, open(rp, 'w'), indent=1, default=str)
+                    out.n_confirmed += 1
+                    out.violation_lines.append('VIOLATION property=C07 replay=%s' % rp)
+    agg.obl['C07:no-sanitizer-report-on-any-explored-path'] = [agg.leaves + len(agg.crashes), agg.leaves]
+    for nm in ('gcd', 'prime', 'c20'):
+        for p in cb[nm]['props']:
+            if not p[0].startswith('harness.assertion'):
+                st = agg.obl.setdefault('C07:cbmc:%s:%s' % (nm, p[0].split('.')[-2] if '.' in p[0] else p[0]), [0, 0])
+                st[0] += 1
+                st[1] += 1 if p[2] == 'SUCCESS' else 0
+    bounds = {
+        'functions_encoded': ['every entry point reached by the harnesses of C01-C06, C12-C17 (exact, approximate, TBB variants under the shim, SPTree, '
+                              'cycle builders, greedy_fvs, ForestIndex, SpVecGF2 incl. add(), validators)', 'fp<int>::ext_gcd, primes<int>::is_prime, '
+                              'set_global_tbb_concurrency via engine B (CBMC pointer/bounds/overflow/shift checks)'],
+        'bounds': 'the paths are those of the solver: each harness is rebuilt with -fsanitize=address,undefined (+ _GLIBCXX_SANITIZE_VECTOR) and explores the reduced '
+                  'case set (all labelled graphs on <=4 vertices with m<=%d fully symbolic, slices of K33/K5/grid/Petersen); AddressSanitizer/UBSan abort or a '
+                  'LeakSanitizer report at the end of a path is a violation; approximate results are dereferenced through the weight map of the caller after the '
+                  'call returned; CBMC: |a|,|b|<%d, p<%d with unwinding assertions' % (lim, 64 if q else 128, 64 if q else 128),
+        'outside_bounds': 'real multi-threaded execution (TBB threads, MPI processes); the DIMACS reader; uninitialised reads (no MSan build of z3); '
+                          'signed overflow of int WEIGHTS is represented by the arithmetic-on-INF monitor only',
+        'cbmc': {k: {kk: cb[k].get(kk) for kk in ('verdict', 'unwind', 'defines', 'backend', 'wall_s', 'sat_vars', 'sat_clauses')} for k in ('gcd', 'prime', 'c20')},
+        'cbmc_differential_test': cb['diff'],
+        'sanitized_harness_runs': [r[0] for r in runs],
+    }
+    assume = ASSUME_A + ['AddressSanitizer/UBSan/LeakSanitizer (gcc 12) are the per-path monitors; a path without report is taken as free of the '
+                         'monitored UB classes on that path']
+    return finish(prop, tier, seed, 'model_checking', agg, out, bounds, assume, t0, cb['diff'].get('compared', 0))
